@@ -467,7 +467,7 @@ def helper_values(ctx, deep):
     return vals, small
 
 
-def helper_oracle(ctx, deep=False):
+def helper_oracle(ctx, deep=False, prefix="c12"):
     """direct oracle: every ct_* helper of the tree under check against its plain specification on
     exhaustive small values, the 32-bit boundaries and random 32/33-bit values.  `deep` (used when a
     gen_* obligation no longer checks) widens every family."""
@@ -478,7 +478,7 @@ def helper_oracle(ctx, deep=False):
         arity, spec = HELPER_SPECS[name]
         f = getattr(c, name, None)
         if f is None:
-            ctx.violation("c12:ct-helper-missing", "tlslite.utils.constanttime.%s does not exist" % name,
+            ctx.violation(prefix + ":ct-helper-missing", "tlslite.utils.constanttime.%s does not exist" % name,
                           {"stage": "helper", "fn": name, "args": []})
             continue
         if arity == 1:
@@ -494,7 +494,7 @@ def helper_oracle(ctx, deep=False):
             want = spec(*args)
             n += 1
             if got != want:
-                ctx.violation("c12:ct-helper-" + name,
+                ctx.violation(prefix + ":ct-helper-" + name,
                               "%s(%s) returned %r, its specification (docstring) says %r"
                               % (name, ", ".join("0x%x" % a for a in args), got, want),
                               {"stage": "helper", "fn": name, "args": list(args), "got": got, "want": want})
